@@ -8,6 +8,92 @@ import crash_harness as CH
 import sysharness as H
 
 
+HAIR_INIT_SHIFT = 1e-6      # smallest offset order.txt can hold
+
+
+def hair_interfaces(n, eps=1.0):
+    """interfaces of the 'orders a hair off an interface' family: the integers 1..n when the offset is
+    positive (the initial path of [i+] peaks at position i + 1: a hair ABOVE its interface), 0..n-1 when it is
+    negative (every position x is a hair BELOW the interface x)"""
+    return [float(k + 1) if eps > 0 else float(k) for k in range(n)]
+
+
+def write_setup(wd, setup):
+    """H.write_setup, plus the family 'orders a hair off an interface' (key `hair` = offset eps, |eps| < 5e-7).
+
+    The lattice plug-in then reports the progress coordinate x + eps for the integer position x and the
+    interfaces are the INTEGERS 1..n (sysharness: k + 0.5), so every frame sits a hair off an interface in
+    memory and EXACTLY on it in order.txt (six decimals).  The initial paths written by sysharness are kept
+    (frames, traj.txt); their order.txt gets the offset +-1e-6 instead of eps (the smallest one the file can
+    hold), so that they are valid paths of their ensembles under any reading of the comparisons: what is
+    tested is what the program itself stores, not the hand-made initial files."""
+    kw = dict(setup)
+    eps = kw.pop("hair", None)
+    if eps is None:
+        return H.write_setup(wd, **kw)
+    import tomli
+    import tomli_w
+    if not 0 < abs(eps) < 5e-7:
+        raise ValueError("hair: the offset must vanish at six decimals")
+    H.write_setup(wd, **kw)
+    n = kw.get("n_intf", 3)
+    tp = os.path.join(wd, "infretis.toml")
+    with open(tp, "rb") as f:
+        config = tomli.load(f)
+    if config["simulation"]["interfaces"] != H.lattice_interfaces(n):
+        raise ValueError("hair: unexpected interfaces in the set-up written by sysharness")
+    config["simulation"]["interfaces"] = hair_interfaces(n, eps)
+    config["engine"]["order_eps"] = float(eps)
+    config["orderparameter"]["order_eps"] = float(eps)
+    with open(tp, "wb") as f:
+        tomli_w.dump(config, f)
+    shift = HAIR_INIT_SHIFT if eps > 0 else -HAIR_INIT_SHIFT
+    for i in range(n):
+        op = os.path.join(wd, "load", str(i), "order.txt")
+        lines = []
+        with open(op) as f:
+            for line in f:
+                tok = line.split()
+                if line.startswith("#") or not tok:
+                    lines.append(line)
+                    continue
+                vals = [float(tok[1]) + shift] + [float(t) for t in tok[2:]]
+                lines.append(f"{int(tok[0]):>10d} " + " ".join(f"{v:>12.6f}" for v in vals) + "\n")
+        with open(op, "w") as f:
+            f.writelines(lines)
+    return config
+
+
+def on_interface(wd):
+    """[(slot, path, move)]: live paths of restart.toml whose STORED maximum order equals the interface of their slot"""
+    import tomli
+    with open(os.path.join(wd, "restart.toml"), "rb") as f:
+        cfg = tomli.load(f)
+    intf, moves = cfg["simulation"]["interfaces"], cfg["simulation"]["shooting_moves"]
+    out = []
+    for slot, pn in enumerate(cfg["current"]["active"]):
+        if slot == 0:
+            continue
+        vals = []
+        with open(os.path.join(wd, cfg["simulation"]["load_dir"], str(pn), "order.txt")) as f:
+            for line in f:
+                if not line.startswith("#") and line.strip():
+                    vals.append(float(line.split()[1]))
+        if vals and max(vals) == intf[slot - 1]:
+            out.append((slot, int(pn), moves[slot]))
+    return out
+
+
+def err_site(e):
+    """exception + the statement that raised it (an AssertionError has no text of its own)"""
+    import traceback
+    try:
+        fr = traceback.extract_tb(e.__traceback__)[-1]
+        return f"{e!r} at {os.path.basename(fr.filename)}:{fr.lineno} in {fr.name}: `{fr.line}`"
+    except Exception:  # noqa: BLE001
+        return repr(e)
+
+
 def read_rows(wd, n):
     rows, bad = [], []
     import tomli
@@ -59,7 +145,7 @@ def crash_case(case):
     wd = H.scratch("infv_crash_")
     try:
         kw = dict(case["setup"])
-        H.write_setup(wd, **kw)
+        write_setup(wd, kw)
         n = kw["n_intf"] + 1
         T = kw["steps"]
         sched = list(case.get("schedule") or [])
@@ -98,6 +184,11 @@ def crash_case(case):
                 with open(os.path.join(wd, "restart.toml"), "rb") as f:
                     cur = tomli.load(f)["current"]
                 out["info"].setdefault("cstep_after_crash", cur["cstep"])
+                if "hair" in kw and "on_interface" not in out["info"]:
+                    try:
+                        out["info"]["on_interface"] = on_interface(wd)
+                    except Exception as e:  # noqa: BLE001
+                        out["info"]["on_interface"] = f"unreadable: {e!r}"
                 locked_rec = sorted(repr(([int(e) - 1 for e in a], [int(p) for p in b])) for a, b in cur["locked"])
                 if rnd is rounds[0] and first_events is not None:
                     # what the record must list: the jobs that were in flight when it was written, i.e. right after
@@ -146,7 +237,7 @@ def crash_case(case):
                     out["info"]["second_crash"] = inj2.log[-1] if inj2.log else None
                 except Exception as e:  # noqa: BLE001
                     import traceback
-                    tag2, r2 = "error", f"{e!r} :: {traceback.format_exc()[-600:]}"
+                    tag2, r2 = "error", f"{err_site(e)} :: {traceback.format_exc()[-600:]}"
             finally:
                 if inj2 is not None:
                     inj2.uninstall()
@@ -194,7 +285,7 @@ def count_effects(setup, which, schedule=None):
     """Number of effects of the `which`-th treat_output and their kinds (dry run)."""
     wd = H.scratch("infv_crashdry_")
     try:
-        H.write_setup(wd, **setup)
+        write_setup(wd, setup)
         inj = CH.Injector()
         run_armed(wd, inj, which, "infretis.toml", schedule=schedule)
         return [(i, k) for i, k, _ in inj.log], getattr(inj, "step_info", None)
